@@ -34,8 +34,9 @@ def check_impl_location():
     import picosvg
 
     p = os.path.realpath(picosvg.__file__)
-    if not p.startswith("/repo/src/"):
-        print(f"HARNESS-ERROR picosvg imported from {p}, not /repo/src", flush=True)
+    want = os.path.realpath(os.environ.get("VERIF_REPO", "/repo")) + "/src/"
+    if not p.startswith(want):
+        print(f"HARNESS-ERROR picosvg imported from {p}, not {want}", flush=True)
         sys.exit(2)
 
 
